@@ -195,6 +195,9 @@ pub fn check_plan(prelude: &[Plan], p: &Plan, st: &mut Stats) -> R {
             _ => "variadic_many",
         });
     }
+    if expect.len() > 1023 {
+        st.count("instructions_over_1023_words");
+    }
     if let Some(e) = p.shape.embedded {
         st.set_insert("embedded_opcodes", format!("{}", e));
     }
@@ -234,6 +237,12 @@ fn sub_random(input: &[u8], st: &mut Stats) -> R {
         2 => crate::layout::gi_by_name("SpecConstantOp"),
         _ => &g.core[cs.below(g.core.len())],
     };
+    if cs.below(24) == 0 {
+        // instructions longer than 1023 words: many variadic repetitions / very long strings
+        gen.max_rep = 1400;
+        gen.long_strings = true;
+        st.count("long_instruction_mode");
+    }
     let Some(p) = gen.plan(&mut cs, gi) else {
         st.count("skipped_no_conforming_instance");
         return Ok(());
